@@ -98,8 +98,10 @@ fn variants(s: &mut Src, file: &str, idx: usize) -> (String, String) {
     let name = format!("T{}", idx);
     let other = if idx == 1 { "./m2" } else { "./m1" };
     let other_name = if idx == 1 { "T2" } else { "T1" };
-    let v = s.below(13);
+    let v = s.below(15);
     let (label, text) = match v {
+        13 => ("provides_other_type", format!("export type {} = {{ provided_by: \"{}\" }};\n", other_name, file)),
+        14 => ("private_type_same_name", format!("type {} = {{ legacy: boolean }};\nexport type Unrelated{} = {};\n", name, idx, name)),
         7 => ("empty", String::new()),
         8 => ("whitespace_only", "  \n\t\n".to_string()),
         9 => ("comment_only", format!("// {} used to live here\n/* nothing else */\n", name)),
@@ -119,8 +121,9 @@ fn variants(s: &mut Src, file: &str, idx: usize) -> (String, String) {
 
 fn entry_variants(s: &mut Src, nmods: usize) -> (String, String) {
     let imports: String = (1..=nmods).map(|i| format!("import {{ T{} }} from \"./m{}\";\n", i, i)).collect();
-    let v = s.below(7);
+    let v = s.below(9);
     match v {
+        7 | 8 if nmods >= 2 => ("through_barrel".into(), "import { T1, T2 } from \"./bar\";\nparse.buildParsers<{ A: T1; B: T2 }>();\n".to_string()),
         5 => ("jsdoc".into(), format!("{}/** the local wrapper */\ntype Local = {{\n  /** wrapped */\n  x: T1;\n}};\nparse.buildParsers<{{ A: Local }}>();\n", imports)),
         6 => ("empty".into(), String::new()),
         0 => ("valid1".into(), format!("{}parse.buildParsers<{{ A: T1; B: {} }}>();\n", imports, if nmods >= 2 { "T2" } else { "string" })),
@@ -173,6 +176,10 @@ impl Check for C14 {
             let mut zero = Src::new(&[]);
             let (_, t) = variants(&mut zero, &format!("m{}", i), i);
             initial.push((format!("m{}.ts", i), t));
+        }
+        // a barrel that is never edited: what it forwards is decided by the current contents of the modules behind it
+        if nmods >= 2 {
+            initial.push(("bar.ts".into(), "export * from \"./m1\";\nexport * from \"./m2\";\n".to_string()));
         }
         let n = s.range(1, 24);
         let mut history = vec![];
@@ -258,11 +265,46 @@ impl Check for C14 {
         };
         // known finding: imports are resolved when a module is parsed; a module cached while its import target did
         // not exist (or did not parse) keeps the failed resolution
+        // Decided per rebuild from the history: is there, at that rebuild, a file whose *current* text imports a module
+        // that was created later than the moment that text was (first) parsed?  A file saved again after the creation is
+        // re-parsed, so its imports must resolve.
         let initial_names: Vec<&String> = parsed.initial.iter().map(|(n, _)| n).collect();
-        let creates_file = parsed.history.iter().any(|op| matches!(op, Op::Update { file, .. } if !initial_names.contains(&file)));
+        let stale_importer_at = |rebuild_step: usize| -> bool {
+            // creation step of every late-created file
+            let mut created: Vec<(String, usize)> = vec![];
+            for (i, op) in parsed.history.iter().enumerate().take(rebuild_step) {
+                if let Op::Update { file, .. } = op {
+                    if !initial_names.contains(&file) && !created.iter().any(|(f, _)| f == file) {
+                        created.push((file.clone(), i));
+                    }
+                }
+            }
+            for (late, c) in &created {
+                let spec = format!("\"./{}\"", late.trim_end_matches(".ts"));
+                // current text of every file and the step that installed it
+                let mut current: std::collections::BTreeMap<String, (String, usize)> = parsed.initial.iter().map(|(n, t)| (n.clone(), (t.clone(), 0usize))).collect();
+                for (i, op) in parsed.history.iter().enumerate().take(rebuild_step) {
+                    if let Op::Update { file, content, .. } = op {
+                        current.insert(file.clone(), (content.clone(), i + 1));
+                    }
+                }
+                for (_, (text, installed)) in &current {
+                    if !text.contains(&spec) || *installed > *c {
+                        continue;
+                    }
+                    // parsed before the creation: a rebuild happened between the installation and the creation
+                    let parsed_before = parsed.history.iter().enumerate().any(|(p, op)| matches!(op, Op::Rebuild) && p + 1 > *installed && p < *c) || (*installed > 0 && parsed.history.iter().take(*installed).any(|op| matches!(op, Op::Rebuild)));
+                    if parsed_before {
+                        return true;
+                    }
+                }
+            }
+            false
+        };
         for r in rebuilds {
             out.evals += 1;
-            if creates_file && (r["session_code"] != r["fresh_code"] || r["session_diag"] != r["fresh_diag"]) {
+            let step = r["step"].as_u64().unwrap_or(0) as usize;
+            if stale_importer_at(step) && (r["session_code"] != r["fresh_code"] || r["session_diag"] != r["fresh_diag"]) {
                 out.mismatch(ctx, "rebuild_differs_from_fresh:import_of_late_created_file", format!("rebuild at step {}: the session differs from a fresh process after a file its cached importer could not resolve was created", r["step"]), json!({"case": case, "rebuild": r}));
                 break;
             }
